@@ -305,7 +305,7 @@ func C14(r *vf.Run) {
 	}
 
 	if r.Phase("lines-directed") {
-		per := r.N(10, 500)
+		per := r.N(10, 3000)
 		r.Parallel(ncpu, 256, func(wi, opi int) {
 			w := newDiffWorker(r)
 			defer w.flush()
@@ -341,7 +341,7 @@ func C14(r *vf.Run) {
 	}
 
 	if r.Phase("twin-runs") {
-		n := r.N(1920, 192000)
+		n := r.N(1920, 768000)
 		chunks := 96
 		r.Parallel(min(ncpu, 8), chunks, func(wi, ci int) {
 			A, B := getSysRig(), getSysRig()
